@@ -43,6 +43,13 @@ pub fn exec(case: &Value) -> Value {
         if let Err(e) = c.load_rules_from_str(&text) {
             return json!({"load": crate::canon::compiler_err_kind(&e)});
         }
+        // asking twice must give the same answer (a failing rule is not forgotten after its first report)
+        let first = c.compile().is_err();
+        let again = c.compile().is_err();
+        let third = c.clone().rules().is_err();
+        if first != again || first != third {
+            return json!({"compile_answers_differ": [first, again, third]});
+        }
         match Engine::try_from(c) {
             Err(e) => json!({"compile": crate::canon::compiler_err_kind(&e), "roundtrip": same}),
             Ok(e) => {
